@@ -646,6 +646,16 @@ func (x *Exec) evalCall(ce *CEnv, n *ECall) *Val {
 		if sp := x.prog.Contracts.Specs[id.Name]; sp != nil {
 			return x.evalSpecCall(ce, sp, n.Args)
 		}
+		// function-valued variable: pure application
+		if fv := x.lookupVarOnly(ce, id.Name); fv != nil {
+			if sig, ok := fv.Typ.Underlying().(*types.Signature); ok {
+				var args []*Val
+				for i, a := range n.Args {
+					args = append(args, x.coerce(x.eval(ce, a), sig.Params().At(i).Type()))
+				}
+				return x.applyFuncValue(x.asTerm(fv), sig, args)
+			}
+		}
 		// Go function of the current package, or conversion
 		if pkg := x.pkgOf(ce); pkg != nil {
 			if f := pkg.Func(id.Name); f != nil {
@@ -702,21 +712,6 @@ func (x *Exec) evalMethodCall(ce *CEnv, recv *Val, name string, argEs []Expr) *V
 				}
 				key := normalizeFuncName(m.FullName())
 				res := x.pureInvoke(key, x.asTerm(recv), m, args, sig.Results())
-				// instantiate the method contract for this application
-				if _, mc := x.prog.ifaceMethod(m); mc != nil && ce.depth < 2 {
-					vars := map[string]*Val{"self": recv}
-					for k := 0; k < sig.Params().Len(); k++ {
-						vars[sig.Params().At(k).Name()] = args[k]
-					}
-					ce2 := &CEnv{x: x, st: ce.st, old: ce.st, vars: vars, guard: ce.guard, fc: mc, depth: ce.depth + 1, pkg: ce.pkg, fr: ce.fr, bound: ce.bound}
-					x.bindResults(ce2, sig, res)
-					for _, e := range mc.Ensures {
-						t := x.evalBool(ce2, e)
-						if !t.Bound {
-							x.assume(ce.guard, t)
-						}
-					}
-				}
 				return res
 			}
 		}
@@ -800,7 +795,33 @@ func (x *Exec) pureFuncApp(ce *CEnv, f *ssa.Function, fc *FuncContract, args []*
 	}
 	rs := x.so.SortOf(res.At(0).Type())
 	x.declareUF(name, sorts, rs)
-	return &Val{Typ: res.At(0).Type(), T: x.b.App(name, rs, terms...)}
+	out := &Val{Typ: res.At(0).Type(), T: x.b.App(name, rs, terms...)}
+	// instantiate the callee's contract for this application: requires ==> ensures
+	if ce.depth < 3 && !out.T.Bound {
+		gid := 0
+		if ce.guard != nil {
+			gid = ce.guard.ID
+		}
+		key := fmt.Sprintf("pfapp:%d:%d", out.T.ID, gid)
+		if !x.ufDecl[key] {
+			x.ufDecl[key] = true
+			vars := map[string]*Val{}
+			for i, p := range f.Params {
+				vars[p.Name()] = args[i]
+			}
+			ce2 := &CEnv{x: x, st: ce.st, old: ce.st, vars: vars, guard: ce.guard, fc: fc, depth: ce.depth + 1, pkg: fnPkg(f)}
+			x.evalLets(ce2, fc)
+			var pre []*smt.Term
+			for _, r := range fc.Requires {
+				pre = append(pre, x.evalBool(ce2, r))
+			}
+			x.bindResults(ce2, f.Signature, out)
+			for _, e := range fc.Ensures {
+				x.assume(ce.guard, x.b.Implies(x.b.And(pre...), x.evalBool(ce2, e)))
+			}
+		}
+	}
+	return out
 }
 
 func (x *Exec) evalSpecCall(ce *CEnv, sp *FuncContract, argEs []Expr) *Val {
@@ -1038,3 +1059,16 @@ func exprString(e Expr) string {
 }
 
 var _ = constant.MakeBool
+
+func (x *Exec) lookupVarOnly(ce *CEnv, name string) *Val {
+	if v, ok := ce.bound[name]; ok {
+		return v
+	}
+	if v, ok := ce.lets[name]; ok {
+		return v
+	}
+	if v, ok := ce.vars[name]; ok {
+		return v
+	}
+	return nil
+}
